@@ -29,7 +29,7 @@ ASSUMPTIONS = [
     "static parameter keys contain no '='; static header keys contain no ': '",
     "the reference emits unpadded base64url and accepts both forms (what Cobalt Strike emits cannot be established offline)",
 ]
-REQUIRED_MONITORS = ["lib->lib", "lib->ref", "wire.equal", "ref->lib", "HttpDataTransform.init.frame"]
+REQUIRED_MONITORS = ["lib->lib", "lib->ref", "wire.equal", "ref->lib", "reuse", "HttpDataTransform.init.frame"]
 
 KF_URI = "uri-append-base-uri"
 
@@ -151,6 +151,22 @@ def judge(case, c2mod, ctx=None):
         got = {n: getattr(back, n) for n in names}
         if got != payload:
             return "ref->lib", f"recover(reference message) = {core.short(got)} != {core.short(payload)} (base64url padded={pad})"
+    # a transform object is reusable: a second payload through the same object must not see anything of the first
+    note("reuse")
+    payload2 = {n: bytes(reversed(v)) + b"#2" for n, v in payload.items()}
+    try:
+        random.seed(seed + 1)
+        http2 = t.transform(c2mod.C2Data(**payload2), _mk_request(c2mod, req))
+        back2 = recover(http2)
+    except Exception as e:  # noqa: BLE001
+        return "reuse", f"second use of the same transform object raised {type(e).__name__}: {e}"
+    want2 = None
+    for pad in (False, True):
+        w = codec.ref_encode(ref_prog, payload2, req, seed + 1, b64url_pad=pad)
+        if _msg_of(http2) == {k: w[k] for k in ("uri", "params", "headers", "body")}:
+            want2 = w
+    if want2 is None or {n: getattr(back2, n) for n in names} != payload2:
+        return "reuse", f"second use of the same transform object: message or recovered payload wrong ({core.short({n: getattr(back2, n) for n in names})} for {core.short(payload2)})"
     if steps != snapshot:
         return "frame", f"the caller's step list was modified: {snapshot!r} -> {steps!r}"
     br = contracts.take()
